@@ -21,6 +21,7 @@ INVALID_ARG_ROWS = [
     ("shape x0",         "ne", {"x0"}, {"n"}, [], "x0 must be a vector"),
     ("shape xl",         "ne", {"x0"}, {"xl"}, [], "lower bounds must have the shape of x0"),
     ("shape xu",         "ne", {"x0"}, {"xu"}, [], "upper bounds must have the shape of x0"),
+    ("bounds not a pair", "ne", {"bounds"}, 2, [("isnot", "bounds")], "bounds must be (lower, upper) (row added with fix c18e669, finding F07k)"),
 ]
 
 # contradictory / inconsistent option pairs (advanced.rst): (row id, [(param key, required truth)], reason)
